@@ -51,6 +51,10 @@ type C15Case struct {
 	Backup   FileState `json:"backup"`
 	Cfg      RetryCfg  `json:"cfg"`
 	Enum     bool      `json:"enumerated,omitempty"`
+	// CLI: the same file states under `wtf search` as a child process (world P, default retry
+	// configuration): attempts from the I/O trace, waits from the recorded sleeps, the database
+	// from the verbose header and the engine tap.
+	CLI bool `json:"cli,omitempty"`
 }
 
 var c15Kinds = []string{"valid", "missing", "dir", "perm", "empty", "malformed", "notlist", "truncated", "bitflip"}
@@ -127,6 +131,10 @@ func genC15(rt *rapid.T) C15Case {
 	c.Cfg.BaseNS = rapid.SampledFrom([]int64{0, int64(time.Millisecond), int64(100 * time.Millisecond)}).Draw(rt, "base")
 	c.Cfg.Factor = rapid.SampledFrom([]float64{1, 1.5, 2, 10}).Draw(rt, "factor")
 	c.Cfg.CapNS = rapid.SampledFrom([]int64{0, int64(50 * time.Millisecond), int64(5 * time.Second), c.Cfg.BaseNS / 2}).Draw(rt, "cap")
+	if rapid.IntRange(0, 59).Draw(rt, "cli") == 30 {
+		c.CLI = true
+		c.Cfg = defaultCfg()
+	}
 	return c
 }
 
@@ -250,8 +258,121 @@ const (
 	c15Personal = "/home/u/.config/cmd-finder/personal.yml"
 )
 
+// runC15CLI drives the loader through the real command line.
+func runC15CLI(c C15Case, o *Outcome) *Outcome {
+	w := newPWorld()
+	var plan []simos.Fault
+	plan = append(plan, c.Main.place(w.disk, pMainDB)...)
+	plan = append(plan, c.Personal.place(w.disk, pNotebook)...)
+	plan = append(plan, c.Backup.place(w.disk, pMainDB+".backup")...)
+	desc := fmt.Sprintf("CLI main=%s/%s%d personal=%s/%s%d backup=%s", c.Main.Kind, c.Main.Fault, c.Main.N, c.Personal.Kind, c.Personal.Fault, c.Personal.N, c.Backup.Kind)
+	res, err := w.run(argsOf("search", "-v", "--all-platforms", "-d", pMainDB, "list", "files"), plan, nil, "c15")
+	if err != nil {
+		o.Harness = err.Error()
+		return o
+	}
+	o.Evals = 1
+	fail := func(sig, f string, a ...any) *Outcome {
+		o.Violation = fmt.Sprintf(f, a...) + "\n  " + desc + "\n  I/O trace: " + traceString(res.Trace) + fmt.Sprintf("\n  sleeps: %v\n  stdout: %q", res.Sleeps, tailStr(string(res.Stdout), 400))
+		o.Sig = "C15/cli-" + sig
+		return o
+	}
+	o.Digest = digestOf([]any{stepDigest(res)})
+	if res.Exit != "exit" {
+		return fail("crash", "wtf search crashed: %s", exitDesc(res))
+	}
+	// the config path resolution stats the file first; attempts = opens of the main file
+	attempts := 0
+	for _, ev := range res.Trace {
+		if ev.Op == "open-r" && ev.Path == pMainDB {
+			attempts++
+		}
+	}
+	mainK, persK, made := 0, 0, 0
+	success := false
+	nReal := 0
+	stop := ""
+	for made < attempts {
+		made++
+		mc, mcmds := c.Main.outcomeAt(mainK)
+		mainK++
+		cause := ""
+		if mc == "ok" {
+			pc, pcmds := c.Personal.outcomeAt(persK)
+			persK++
+			switch pc {
+			case "ok":
+				success, nReal = true, len(mcmds)+len(pcmds)
+			case "enoent":
+				success, nReal = true, len(mcmds)
+			default:
+				cause = "personal:" + pc
+			}
+		} else {
+			cause = "main:" + mc
+		}
+		if success {
+			break
+		}
+		stop = cause
+		if cause == "main:enoent" || cause == "main:eacces" || cause == "personal:eacces" {
+			break
+		}
+	}
+	if attempts == 0 {
+		return fail("no-attempt", "the database file was never opened")
+	}
+	if made < attempts {
+		return fail("futile-retry", "%s at attempt %d should have ended the loading, but the main file was opened %d times", stop, made, attempts)
+	}
+	if attempts > 3 {
+		return fail("too-many-attempts", "the main file was opened %d times; the default configuration allows 3", attempts)
+	}
+	for i, d := range res.Sleeps {
+		if d < 0 || time.Duration(d) > 5*time.Second || (i > 0 && d < res.Sleeps[i-1]) {
+			return fail("waits", "waits %v are not non-decreasing within [0, 5s]", res.Sleeps)
+		}
+	}
+	if len(res.Sleeps) > attempts-1 {
+		return fail("futile-wait", "%d waits for %d attempt(s)", len(res.Sleeps), attempts)
+	}
+	out := string(res.Stdout)
+	var loaded int
+	found := false
+	for _, l := range strings.Split(out, "\n") {
+		if n, e := fmt.Sscanf(l, "Loaded %d commands from database", &loaded); e == nil && n == 1 {
+			found = true
+		}
+	}
+	if !found {
+		return fail("no-database", "the search did not report a loaded database")
+	}
+	if success && loaded != nReal {
+		return fail("wrong-database", "the files load with %d entries (main then notebook) but the search ran over %d", nReal, loaded)
+	}
+	if !success && loaded == 0 {
+		return fail("empty-fallback", "nothing could be loaded and the search ran over an empty database")
+	}
+	engine := false
+	for _, t := range res.Taps {
+		if t.Name == "SearchUniversal" {
+			engine = true
+		}
+	}
+	if !engine {
+		return fail("not-searched", "the database was loaded but never searched")
+	}
+	o.Probes["c15.cli_cases"] = 1
+	o.NonTrivial = c.Main.Kind != "valid" || c.Main.Fault != "" || c.Personal.Kind != "missing"
+	o.Behaviour = fmt.Sprintf("cli %s/%s|%s/%s att=%d sl=%d ok=%v", c.Main.Kind, c.Main.Fault, c.Personal.Kind, c.Personal.Fault, attempts, len(res.Sleeps), success)
+	return o
+}
+
 func runC15(c C15Case) *Outcome {
 	o := &Outcome{Probes: map[string]int{}, Faults: map[string]int{}}
+	if c.CLI {
+		return runC15CLI(c, o)
+	}
 	simrt.SetOrderCanonical()
 	simtime.Install(simtime.Epoch)
 	defer simtime.Uninstall()
